@@ -77,3 +77,32 @@ package gorp
 //@ # putLocked / deleteLocked / flush (reverse[key] := value with LI preserved) are not under contract:
 //@ # their obligations (existential bucket membership across append and slices.Delete) were not
 //@ # discharged within the time budget and are listed as not covered for C17.
+
+//@ pure func (d *delta[K, V]) isEmpty() bool
+//@ # lo.Keys: the keys of the set, in some order (assumed)
+//@ trusted func (s set.Set[T]) Slice() (r []T)
+//@   tparams T comparable
+//@   ensures forall k T :: (exists i int :: 0 <= i && i < len(r) && r[i] == k) == __in(s, k)
+//@   modifies nothing
+
+//@ spec func inKeys[K Key](s []K, k K) bool = exists i int :: 0 <= i && i < len(s) && s[i] == k
+//@ spec func inVals[V comparable](s []V, v V) bool = exists i int :: 0 <= i && i < len(s) && s[i] == v
+
+//@ # read-your-own-writes: the keys an equality query sees inside a transaction are the committed
+//@ # keys overridden, key by key, by that transaction's staged state (staged delete hides the key,
+//@ # staged value decides membership); keys the transaction never touched come from committed state
+//@ func (d *delta[K, V]) merge(committedKeys []K, values []V) (res []K)
+//@   tparams K Key, V comparable
+//@   requires DI(d)
+//@   ensures  forall k K :: __in(d.state, k) ==> (inKeys(res, k) == (!d.state[k].deleted && inVals(values, d.state[k].value)))
+//@   ensures  forall k K :: !__in(d.state, k) ==> (inKeys(res, k) == inKeys(committedKeys, k))
+//@   modifies nothing
+//@   loop 0 modifies result
+//@   loop 0 invariant result != nil && valueSet != nil && (forall v V :: __in(valueSet, v) == inVals(values, v))
+//@   loop 0 invariant forall k K :: __in(result, k) == (inKeys(committedKeys, k) && !(__seen(k) && (d.state[k].deleted || !inVals(values, d.state[k].value))))
+//@   loop 1 modifies result
+//@   loop 1 invariant result != nil
+//@   loop 1 invariant forall k K :: __in(result, k) == ((inKeys(committedKeys, k) && !(__in(d.state, k) && (d.state[k].deleted || !inVals(values, d.state[k].value)))) || (exists j int :: 0 <= j && j < __ri(0) && inF(d, values[j], k)))
+//@   loop 2 modifies result
+//@   loop 2 invariant result != nil
+//@   loop 2 invariant forall k K :: __in(result, k) == ((inKeys(committedKeys, k) && !(__in(d.state, k) && (d.state[k].deleted || !inVals(values, d.state[k].value)))) || (exists j int :: 0 <= j && j < __ri(1) && inF(d, values[j], k)) || __seen(k))
